@@ -62,9 +62,14 @@ impl<T: Copy> Vec<T> {
     pub fn len(&self) -> usize { self.len }
     pub fn is_empty(&self) -> bool { self.len == 0 }
     pub fn clear(&mut self) { self.len = 0; }
+    pub fn get(&self, i: usize) -> Option<&T> { if i < self.len { Some(&self.items[i]) } else { None } }
+    pub fn get_mut(&mut self, i: usize) -> Option<&mut T> { if i < self.len { Some(&mut self.items[i]) } else { None } }
+    pub fn truncate(&mut self, n: usize) { if n < self.len { self.len = n; } }
     pub fn push(&mut self, x: T) { assert!(self.len < MAX, "stub Vec capacity"); self.items[self.len] = x; self.len += 1; }
 }
 
+impl<T: Copy> std::ops::Index<usize> for Vec<T> { type Output = T; fn index(&self, i: usize) -> &T { assert!(i < self.len, "index out of bounds"); &self.items[i] } }
+impl<T: Copy> std::ops::IndexMut<usize> for Vec<T> { fn index_mut(&mut self, i: usize) -> &mut T { assert!(i < self.len, "index out of bounds"); &mut self.items[i] } }
 pub struct ConnMap { pub conns: [ConnRef; N_CONN] }
 impl ConnMap {
     pub fn get(&self, name: TName) -> Option<&ConnRef> {
